@@ -128,7 +128,7 @@ def shrink_program(P, still_fails):
                 cand = copy.deepcopy(cur)
                 del cand[key][i]
                 try:
-                    if still_fails(cand):
+                    if spine.valid_program(cand) and still_fails(cand):
                         cur = cand
                         changed = True
                 except Exception:
@@ -147,7 +147,7 @@ def shrink_program(P, still_fails):
                 st[bi] = body
                 cand["stmts"][si] = tuple(st)
                 try:
-                    if still_fails(cand):
+                    if spine.valid_program(cand) and still_fails(cand):
                         cur = cand
                         changed = True
                 except Exception:
